@@ -16,6 +16,9 @@ Lattices
   stations  station types 0..15 x vehicle roles 0..15 (CAM), station types 0..15 (VAM)
   cluster   every clustering phase of the VRU service (leader, joining [whole notification window in 50 ms steps],
             waiting, cancelled / failed join, passive, leaving, breaking up, idle) for the VAM cluster containers
+  path      CAM path history: sequences of three positions 1 s apart (start, first step, jump), jump over
+            {0, +-1, 1000, +-131071, +-131072, +-131073, +-200000, 5000000} x the same set (1e-7 deg, both axes), every CAM
+            of the run judged against the positions of the CAMs sent before it
   denm      EmergencyVehicleApproachingService reports over hemispheres / altitude lattice, DEN requests over
             heading / confidence / speed
   gdt       generationDeltaTime reconstruction for every age 0..65 535 ms x receive instants around the wrap
@@ -572,6 +575,109 @@ def _cluster_job(args):
 
 
 # ------------------------------------------------------------------------------------------------------
+# CAM path history: sequences of reports (a path point needs an earlier CAM)
+# ------------------------------------------------------------------------------------------------------
+PH_JUMPS = [0, 1, -1, 1000, 131071, 131072, 131073, -131071, -131072, -131073, 200000, -200000, 5000000]   # 1e-7 deg
+PH_FIRST = [(0, 0), (1000, 0), (0, -1000), (131073, 0), (0, -131073), (60000, 60000)]
+
+
+def judge_path(decoded, cur, earlier, now_ms):
+    """pathHistory of one CAM against the positions of the CAMs sent before it (newest first).
+
+    Every decoded point must be one of the earlier CAM positions (order preserved), its offsets within one unit of the
+    true offset and its age within 10 ms.  An offset that does not fit DeltaLatitude / DeltaLongitude (-131071..131071)
+    must either make the point disappear or be sent as 131072 ('unavailable', the element has no outOfRange code) - the
+    code emits 131072 exactly when the true offset is +131072 units; 131072 for an offset that fits is a violation, and
+    so is every wrapped value.  The newest earlier position must be present when it fits (no vacuous history)."""
+    out = []
+    lf = decoded["cam"]["camParameters"].get("lowFrequencyContainer")
+    if lf is None:
+        return out
+    pts = lf[1]["pathHistory"]
+    cand = [dict(dlat=(e["lat"] - cur["lat"]) * 1e7, dlon=(e["lon"] - cur["lon"]) * 1e7, age=(now_ms - e["ms"]) / 10.0, ulat=e["ulat"] - cur["ulat"],
+                 ulon=e["ulon"] - cur["ulon"]) for e in reversed(earlier)]
+    def axis_ok(got, d, u):
+        fits = -131071 <= u <= 131071
+        if got == 131072:                      # 'unavailable': the only code the element offers for an offset that does not fit
+            return not fits
+        return fits and abs(got - d) <= 1.0 + 1e-3
+
+    i = 0
+    for k, pt in enumerate(pts):
+        pp = pt["pathPosition"]
+        got = (pp["deltaLatitude"], pp["deltaLongitude"], pt.get("pathDeltaTime"))
+        while i < len(cand):
+            c = cand[i]
+            i += 1
+            if axis_ok(got[0], c["dlat"], c["ulat"]) and axis_ok(got[1], c["dlon"], c["ulon"]) and \
+                    (got[2] is None or abs(got[2] - min(max(c["age"], 1.0), 65534.0)) <= 1.0 + 1e-6):
+                break
+        else:
+            out.append(dict(kind="path_point_mismatch", index=k, got=list(got), points=len(pts), earlier_cams=len(cand)))
+            break
+    if cand and all(-131071 <= u <= 131071 for u in (cand[0]["ulat"], cand[0]["ulon"])) and not pts:
+        out.append(dict(kind="path_history_empty", earlier_cams=len(cand)))
+    return out
+
+
+def _path_job(args):
+    base, firsts, jumps = args
+    n = 0
+    bad = []
+    distinct = set()
+    b = BASES[base]
+    ulat0, ulon0 = round(b["lat"] * 1e7), round(b["lon"] * 1e7)
+    for first in firsts:
+        for jump in jumps:
+            n += 1
+            w = F.FacWorld(start_ms=T0)
+            w.add_cam()
+            w.start_cam(0)
+            earlier = []
+            ulat, ulon = ulat0, ulon0
+            rp = dict(call="path", base=base, first=list(first), jump=list(jump))
+            recs = []
+            for step in ((0, 0), first, jump):
+                ulat, ulon = ulat + step[0], ulon + step[1]
+                tpv = mk_report(base, dict(lat=ulat / 1e7, lon=ulon / 1e7), t_ms=w.ms)
+                cur = dict(lat=tpv["lat"], lon=tpv["lon"], ulat=ulat, ulon=ulon)
+                w.report(w.cam_tm, tpv)
+                got_cam = 0
+                end = w.ms + 1000
+                while w.next_timer() is not None and w.timer_ms(w.next_timer()) <= end:
+                    n0 = len(w.sent)
+                    w.fire_next()
+                    for s in w.sent[n0:]:
+                        got_cam += 1
+                        distinct.add(s.data)
+                        try:
+                            d = F.coder("cam").decode(s.data)
+                        except Exception as e:  # noqa: BLE001
+                            recs.append(dict(kind="undecodable", msg="cam", exc=type(e).__name__))
+                            continue
+                        if F.coder("cam").encode(d) != s.data:
+                            recs.append(dict(kind="reencode_differs", msg="cam"))
+                        pos = d["cam"]["camParameters"]["basicContainer"]["referencePosition"]
+                        if abs(pos["latitude"] - ulat) > 1 or abs(pos["longitude"] - ulon) > 1:
+                            recs.append(dict(kind="value_mismatch", msg="cam", field="referencePosition", got=[pos["latitude"], pos["longitude"]],
+                                             expected=[ulat, ulon], source="lat/lon", input="n/a"))
+                        recs += judge_path(d, cur, earlier, w.ms)
+                        earlier.append(dict(cur, ms=w.ms))
+                w.set_ms(end)
+                if not got_cam:
+                    recs.append(dict(kind="not_generated", msg="cam", count=0, window_ms=1000))
+            seen = set()
+            for r in recs:
+                k = (r["kind"], r.get("index"))
+                if k in seen:
+                    continue
+                seen.add(k)
+                r.update(msg="cam", base=base, cause_field="jump", cause_input=list(jump), first_step=list(first))
+                bad.append((r, rp))
+    return n, bad, len(distinct)
+
+
+# ------------------------------------------------------------------------------------------------------
 # DENM
 # ------------------------------------------------------------------------------------------------------
 class _DenService:
@@ -816,6 +922,11 @@ def run(ctx):
         jobs += [("joining", win[i:i + 12], ids) for i in range(0, len(win), 12)]
         jobs += [("breakup", win[i:i + 12], [7]) for i in range(0, len(win), 12)]
         drain("cluster_phases", _cluster_job, jobs)
+        # ---- CAM path history over report sequences ----------------------------------------------------------
+        jumps = [(a, o) for a in PH_JUMPS for o in PH_JUMPS]
+        firsts = PH_FIRST if thorough else PH_FIRST[:4]
+        jobs = [(b, [f], jumps[i:i + 60]) for b in BASES for f in firsts for i in range(0, len(jumps), 60)]
+        drain("path_history", _path_job, jobs)
         # ---- DENM ---------------------------------------------------------------------------------------------
         eva = []
         for b in BASES:
@@ -887,6 +998,9 @@ def replay(path):
         bad = [x[0] for x in b]
     elif call == "cluster":
         n, b, _ = _cluster_job((rp["phase"], [rp.get("delay_ms", 0)], [rp.get("cluster_id", 7)]))
+        bad = [x[0] for x in b]
+    elif call == "path":
+        n, b, _ = _path_job((rp["base"], [tuple(rp["first"])], [tuple(rp["jump"])]))
         bad = [x[0] for x in b]
     elif call == "denm_eva":
         n, b, _ = _denm_job(("eva", [(rp["base"], rp["over"], tuple(rp["drop"]))]))
